@@ -32,13 +32,19 @@ fn meters(unit: &DistanceUnit) -> f64 {
     crate::refmodel::units::distance_m(unit)
 }
 
-fn tolerances() -> Vec<Option<(f64, DistanceUnit)>> {
-    let mut v = vec![None];
+/// how the unit of a tolerance is written: 0 = tolerance and unit, 1 = tolerance without a unit (then it is in metres, the
+/// base distance unit), 2 = a unit without a tolerance (no tolerance at all)
+fn tolerances() -> Vec<(Option<(f64, DistanceUnit)>, u8)> {
+    let mut v = vec![(None, 0u8)];
     for m in [100.0, 700.0, 1300.0, 5000.0] {
         for u in [DistanceUnit::Meters, DistanceUnit::Kilometers, DistanceUnit::Miles, DistanceUnit::Feet] {
-            v.push(Some((m / meters(&u), u)));
+            v.push((Some((m / meters(&u), u)), 0));
         }
     }
+    for m in [100.0, 700.0, 1300.0, 5000.0] {
+        v.push((Some((m, DistanceUnit::Meters)), 1));
+    }
+    v.push((None, 2));
     v
 }
 
@@ -89,14 +95,15 @@ fn check_vertex(scratch: &Scratch, mask: u32, tier: Tier, st: &mut Stats) {
     std::fs::write(&file, s).expect("write");
     let cands: Vec<(usize, f32, f32)> = verts.iter().enumerate().map(|(id, li)| (id, lattice(*li).0, lattice(*li).1)).collect();
     let pts = query_points();
-    for (ti, tol) in tolerances().iter().enumerate() {
+    for (ti, (tol, unit_mode)) in tolerances().iter().enumerate() {
+        let unit_mode = *unit_mode;
         if tier == Tier::Quick && ti != 0 && (ti + mask as usize) % 4 != 0 {
             continue;
         }
         // built the way the application builds it: by the plugin builder from its configuration (tolerance and unit as
         // configuration values); the first tolerance of every set also through the constructor
-        let plugin: std::sync::Arc<dyn InputPlugin> = if ti == 1 {
-            match RTreePlugin::new(&file, tol.as_ref().map(|t| Distance::new(t.0)), tol.as_ref().map(|t| t.1)) {
+        let plugin: std::sync::Arc<dyn InputPlugin> = if ti == 1 || ti == 18 {
+            match RTreePlugin::new(&file, tol.as_ref().map(|t| Distance::new(t.0)), if unit_mode == 1 { None } else { tol.as_ref().map(|t| t.1) }) {
                 Ok(p) => std::sync::Arc::new(p),
                 Err(e) => {
                     st.violation("vertex_rtree", "builds", mask as u64, || e.to_string(), || json!({"vertices": verts}));
@@ -107,7 +114,12 @@ fn check_vertex(scratch: &Scratch, mask: u32, tier: Tier, st: &mut Stats) {
             let mut conf = json!({"type": "vertex_rtree", "vertices_input_file": file.to_str().unwrap()});
             if let Some((t, u)) = tol {
                 conf["distance_tolerance"] = json!(t);
-                conf["distance_unit"] = json!(u.to_string());
+                if unit_mode != 1 {
+                    conf["distance_unit"] = json!(u.to_string());
+                }
+            }
+            if unit_mode == 2 {
+                conf["distance_unit"] = json!("kilometers");
             }
             match (routee_compass::plugin::input::default::vertex_rtree::builder::VertexRTreeBuilder {}).build(&conf) {
                 Ok(p) => p,
@@ -132,7 +144,7 @@ fn check_vertex(scratch: &Scratch, mask: u32, tier: Tier, st: &mut Stats) {
                 }
                 let before = q.clone();
                 let size = verts.len() as u64 * 1000 + pi as u64;
-                let case = || json!({"kind": "vertex", "lattice_vertices": verts, "tolerance": tol.as_ref().map(|t| (t.0, t.1.to_string())), "query": before});
+                let case = || json!({"kind": "vertex", "lattice_vertices": verts, "tolerance": tol.as_ref().map(|t| (t.0, t.1.to_string())), "unit_written": unit_mode, "query": before});
                 let r = guarded(|| plugin.process(&mut q).map_err(|e| e.to_string()));
                 let (o_ids, o_err, o_bd) = expect(&cands, *px, *py, tol);
                 let (d_ids, d_err, d_bd) = if with_dest { expect(&cands, dx, dy, tol) } else { (vec![], false, false) };
@@ -294,18 +306,19 @@ fn check_edges(scratch: &Scratch, si: usize, tier: Tier, st: &mut Stats) {
         ("vehicle_too_tall_and_heavy", None, Some(vp_tall_heavy.clone())),
     ];
     let pts = query_points();
-    for (ti, tol) in tolerances().iter().enumerate() {
+    for (ti, (tol, unit_mode)) in tolerances().iter().enumerate() {
+        let unit_mode = *unit_mode;
         if tier == Tier::Quick && ti != 0 && (ti + si) % (if si < 6 { 4 } else { 8 }) != 0 {
             continue;
         }
         let plugin: std::sync::Arc<dyn InputPlugin> = match guarded(|| -> Result<std::sync::Arc<dyn InputPlugin>, String> {
-            if ti == 1 {
+            if ti == 1 || ti == 18 {
                 EdgeRtreeInputPlugin::new(
                     Some(cfile.to_str().unwrap().to_string()),
                     Some(rfile.to_str().unwrap().to_string()),
                     gfile.to_str().unwrap().to_string(),
                     tol.as_ref().map(|t| Distance::new(t.0)),
-                    tol.as_ref().map(|t| t.1),
+                    if unit_mode == 1 { None } else { tol.as_ref().map(|t| t.1) },
                     parser.clone(),
                 )
                 .map(|p| std::sync::Arc::new(p) as std::sync::Arc<dyn InputPlugin>)
@@ -315,7 +328,12 @@ fn check_edges(scratch: &Scratch, si: usize, tier: Tier, st: &mut Stats) {
                 let mut conf = json!({"type": "edge_rtree", "geometry_input_file": gfile.to_str().unwrap(), "road_class_input_file": cfile.to_str().unwrap(), "vehicle_restriction_input_file": rfile.to_str().unwrap(), "road_class_parser": {"mapping": {"even": 0, "odd": 1}}});
                 if let Some((t, u)) = tol {
                     conf["distance_tolerance"] = json!(t);
-                    conf["distance_unit"] = json!(u.to_string());
+                    if unit_mode != 1 {
+                        conf["distance_unit"] = json!(u.to_string());
+                    }
+                }
+                if unit_mode == 2 {
+                    conf["distance_unit"] = json!("kilometers");
                 }
                 (routee_compass::plugin::input::default::edge_rtree::edge_rtree_input_plugin_builder::EdgeRtreeInputPluginBuilder {}).build(&conf).map_err(|e| e.to_string())
             }
@@ -362,7 +380,7 @@ fn check_edges(scratch: &Scratch, si: usize, tier: Tier, st: &mut Stats) {
                 }
                 let before = q.clone();
                 let size = m as u64 * 1000 + pi as u64;
-                let case = || json!({"kind": "edge", "edge_set": si, "edges": edges, "shapes": shapes, "tolerance": tol.as_ref().map(|t| (t.0, t.1.to_string())), "filter": fname, "query": before});
+                let case = || json!({"kind": "edge", "edge_set": si, "edges": edges, "shapes": shapes, "tolerance": tol.as_ref().map(|t| (t.0, t.1.to_string())), "unit_written": unit_mode, "filter": fname, "query": before});
                 let r = guarded(|| plugin.process(&mut q).map_err(|e| e.to_string()));
                 let (ids, must_err, bd) = expect(&admissible, *px, *py, tol);
                 // the matcher gives up at the first candidate (admissible or not) beyond the tolerance; when an inadmissible
